@@ -2,7 +2,7 @@
    Statements only; proofs in Gen/ConfigThm.v, ConfigThm2.v, ConfigThmAlias.v.  The leaf rule
    (DefaultValue.assign_to_if_not_default), the body of deep_update, cpp _validate_language_options,
    the cpp option groups and the CLI wiring are regenerated from /repo into Generated/Gen_C13.v. *)
-From Verif Require Import Config ConfigAlias ConfigThm ConfigThm2 ConfigThm3 ConfigThm4 ConfigThm5 ConfigThmProc ConfigThmAlias ConfigFixState.
+From Verif Require Import Config ConfigAlias ConfigThm ConfigThm2 ConfigThm3 ConfigThm4 ConfigThm5 ConfigThmProc ConfigThmAlias.
 Require Import List Bool.
 Import ListNotations.
 Open Scope N_scope.
@@ -313,17 +313,10 @@ Proof. exact raw_spec. Qed.
 Print Assumptions c13_raw_getter_spec.
 
 (* sub-maps that are ONE object inside a source (YAML anchors, one dict under two keys): the heap model expresses them (dcv,
-   hload_dag, memo-faithful hdeepcopy).  With the plain deepcopy the copy keeps the internal sharing and a later source changes a
-   key it never mentions (F-CFG-ALIASMAP); with the copy rebuilt key by key it does not.  Which of the two the code does is the
-   regenerated fact deep_update_rebuilds_copy (see the fix state below).  A universally quantified statement for the rebuilt
+   hload_dag, memo-faithful hdeepcopy).  The code rebuilds the deep copy key by key (regenerated fact deep_update_rebuilds_copy, obligation
+   below), so a later source cannot change a key it never mentions through a shared sub-map; what the plain deepcopy did
+   (F-CFG-ALIASMAP, fixed) is in History/C13_history.v.  A universally quantified statement for the rebuilt
    copy on the heap model is NOT proved; the correspondence run compares the heap model with deep_update on random shared documents. *)
-Theorem c13_aliased_submap_changes_unmentioned_key :
-  untouched [[101]; [98]; [107]] (dag_expand 8 [] am_src2) = true
-  /\ lookup [[101]; [98]; [107]] (fst (hmerge_dag_scenario true false am_base [am_src1])) = Some (Leaf false (AInt 1))
-  /\ lookup [[101]; [98]; [107]] (fst (hmerge_dag_scenario true false am_base [am_src1; am_src2])) = Some (Leaf false (AInt 2)).
-Proof. exact aliased_submap_changes_unmentioned_key. Qed.
-Print Assumptions c13_aliased_submap_changes_unmentioned_key.
-
 Theorem c13_rebuilt_copy_keeps_unmentioned_key :
   lookup [[101]; [98]; [107]] (fst (hmerge_dag_scenario true true am_base [am_src1; am_src2])) = Some (Leaf false (AInt 1))
   /\ lookup [[101]; [97]; [107]] (fst (hmerge_dag_scenario true true am_base [am_src1; am_src2])) = Some (Leaf false (AInt 2))
@@ -345,11 +338,10 @@ Print Assumptions c13_strip_markers_lookup.
 (* ---- fix state: obligations on the regenerated facts (reflexivity; a regression or an unannounced landing fails here) ---- *)
 Example c13_fix_F_CFG_ALIAS_landed : deep_update_copies_deeply = true.            Proof. reflexivity. Qed.
 Example c13_fix_F_CFG_REUSE_landed : create_detaches_config = true.               Proof. reflexivity. Qed.
-(* pending fixes: expected state in Gen/ConfigFixState.v (flip there when landing the patch) *)
-Example c13_fix_F_CFG_ALIASMAP_state : deep_update_rebuilds_copy = expect_rebuilds_copy.                         Proof. reflexivity. Qed.
-Example c13_fix_F_CFG_WRAPPER_state : create_strips_default_markers = expect_strips_default_markers.            Proof. reflexivity. Qed.
-Example c13_fix_F_CFG_EMPTYDOC_state : yaml_empty_document_is_identity = expect_empty_document_is_identity.     Proof. reflexivity. Qed.
-Example c13_fix_F_CFG_REPEATC_state : cli_configuration_accumulates = expect_configuration_accumulates.         Proof. reflexivity. Qed.
+Example c13_fix_F_CFG_ALIASMAP_landed : deep_update_rebuilds_copy = true.        Proof. reflexivity. Qed.
+Example c13_fix_F_CFG_WRAPPER_landed : create_strips_default_markers = true.     Proof. reflexivity. Qed.
+Example c13_fix_F_CFG_EMPTYDOC_landed : yaml_empty_document_is_identity = true.  Proof. reflexivity. Qed.
+Example c13_fix_F_CFG_REPEATC_landed : cli_configuration_accumulates = true.     Proof. reflexivity. Qed.
 
 (* ---- non-vacuity: the hypotheses are satisfiable and the conclusions discriminate ---------------- *)
 Definition ex_base : cv := Node [([97], Leaf true (AInt 1)); ([98], Leaf false (AInt 2)); ([110], Node [([120], Leaf false (AInt 0))])].
